@@ -176,11 +176,19 @@ def Kind.go {A : Type} (K : Kind A) : St A → List Op → List (List String)
   | _, [] => []
   | s, op :: ops => let r := K.step s op; r.2 :: K.go r.1 ops
 
-/-- the observation trace of a program; both registers start as `zeros()` -/
+/-- the state-free steps: associated functions of the array / domain types, run without an array -/
+def Kind.staticToks {A : Type} (K : Kind A) : Op → Option (List String)
+  | .indexes => some (enumToks K.indexes)
+  | .keys => some (outToks enumToks K.keys)
+  | .dkeys => some (if K.labelled then dkeysToks K.newtype K.dims else ["na"])
+  | _ => none
+
+/-- the observation trace of a program; both registers start as `zeros()`; if that already fails only the
+    state-free steps are run -/
 def Kind.run {A : Type} (K : Kind A) (prog : List Op) : List (List String) :=
   match K.zeros with
   | .ok z => K.go { a := z, b := z } prog
-  | _ => prog.map fun _ => ["noinit"]
+  | _ => prog.map fun op => (K.staticToks op).getD ["noinit"]
 
 /-! ### helpers shared by the nested kinds -/
 
